@@ -12,7 +12,7 @@ WITNESSES = {'all': ['not-succeeds', 'not-fails', 'node-level', 'parsed-not', 'h
 OPTS = {'quick': {'selfcheck_mod': 60, 'budget_s': 280}, 'thorough': {'selfcheck_mod': 600, 'budget_s': 3000}}
 STEP_LIMIT = 1_500_000
 BOUNDS = {
-    'quick': 'G in {p($X), q($X), q(a), r($X, $Y), (p($X), q($X)), (q($X) ; r($X, $Y)), $X = b, $X = $Y, $X == b, $X < 3, eq($X, c), a call of an undefined predicate, and four G that bind a variable and then fail}; not(G) placed first, in the middle and last in '
+    'quick': 'G in {p($X), q($X), q(a), r($X, $Y), (p($X), q($X)), (q($X) ; r($X, $Y)), $X = b, $X = $Y, $X == b, $X < 3, eq($X, c), a call of an undefined predicate, G whose first goal first succeeds without a binding and then with one, G that call facts made of `$_` only, and four G that bind a variable and then fail}; not(G) placed first, in the middle and last in '
              'conjunctions of up to 3 goals with backtracking neighbours p($X), q($X), r($X, $Y), and in one disjunction shape; 24 bodies in which a successful not(...) is followed by calls of facts that have variables of their own; answers compared with the reference; at node level: '
              'a Not node is built for each G under substitutions that bind $X to a, b, c or nothing, asked three times: at most one success, the returned substitution set equals the input, '
              'and success iff the reference finds no answer for G; `not(p($X))` also through parse_subgoal',
@@ -24,6 +24,9 @@ ASSUMPTIONS = []
 GS = [gc('p', X), gc('q', X), gc('q', A('a')), gc('r', X, Y), AND(gc('p', X), gc('q', X)), OR(gc('q', X), gc('r', X, Y)), U(X, A('b')), U(X, Y),
       gb('equal', X, A('b')), gb('less_than', X, I(3)), gc('eq', X, A('c')), gc('nosuch', X), AND(gc('nosuch', X), gc('p', X)),
       # G binds something and then fails: not(G) succeeds and must leave no trace of those bindings
+      # G's first goal succeeds without binding anything and has a second answer that the rest of G needs; facts made of `$_` only
+      AND(gc('u', Y), gb('equal', Y, I(5))), AND(OR(gb('equal', X, A('a')), U(Y, I(2))), gb('equal', Y, I(2))), AND(gc('any', A('k')), gb('equal', X, A('a'))),
+      AND(gc('any2', X, Y), gc('q', X)),
       AND(U(X, I(1)), gb('fail')), AND(gc('p', X), gb('equal', X, A('zz'))), AND(gc('r', X, Y), gc('nosuch', Y)), OR(AND(U(X, A('b')), gb('fail')), AND(gc('q', X), gb('fail')))]
 NB = [gc('p', X), gc('q', X), gc('r', X, Y)]
 
